@@ -200,6 +200,7 @@ impl Property for C04 {
         f.pushpop = cfg_rng.chance(1, 3);
         f.nomerge = cfg_rng.chance(1, 3);
         f.functions = true;
+        let containers = f.containers;
         let mut g = Gen::new(root.fork("workload"), f);
         let mut ops = to_text(&g.gen_decls());
         let session = to_text(&g.gen_session());
@@ -225,6 +226,17 @@ impl Property for C04 {
                 }
             }
             ops.push(op.clone());
+            if containers && cfg_rng.chance(1, 3) {
+                // unions among (likely) container elements: containers collide, survive under
+                // another id and must stay reachable for the next rebuild
+                let s = g.rng.below(g.sig.sorts.len());
+                let a = g.ground_term(s, 1);
+                let b = g.ground_term(s, 1);
+                ops.push(crate::sexp::Sexp::call("union", vec![a, b]).to_string());
+                if cfg_rng.chance(1, 2) {
+                    ops.push(g.gen_run().to_string());
+                }
+            }
         }
         case.ops = ops;
         let fails: Vec<u64> = (0..cfg_rng.below(3)).map(|_| cfg_rng.below(6) as u64).collect();
@@ -232,10 +244,15 @@ impl Property for C04 {
         if index % 10 == 9 {
             draw_threaded(&mut case, &mut cfg_rng);
             draw_knobs(&mut case, &mut cfg_rng);
-        } else if cfg_rng.chance(1, 2) {
+        } else if containers || cfg_rng.chance(1, 2) {
             // size-dependent rebuild paths (incremental table / container rebuild,
             // rehash thresholds) forced or forbidden on small databases
             draw_knobs(&mut case, &mut cfg_rng);
+            if containers && cfg_rng.chance(1, 2) {
+                if let Some(serde_json::Value::Object(m)) = case.cfg.get_mut("knobs") {
+                    m.insert("container_incremental_rebuild".into(), json!(1));
+                }
+            }
         }
         case
     }
